@@ -27,6 +27,8 @@ using namespace babylon;
 // counting element: every constructor / assignment / destructor checks the raw / constructed discipline
 static std::set<const void*> g_live;
 static SwissMemoryResource* g_res = nullptr;
+static SwissMemoryResource* g_res2 = nullptr;   // second resource of the V cases (different-allocator copies / moves)
+static bool in_res(const void* p) { return (g_res && g_res->contains(p)) || (g_res2 && g_res2->contains(p)); }
 static long g_ctor = 0, g_dtor = 0;   // calls on addresses inside the resource
 static int g_bad_ctor_over_live = 0, g_bad_use_of_dead = 0, g_bad_dtor_of_dead = 0;
 
@@ -35,7 +37,7 @@ struct Counting {
   int v;
   void born() {
     if (!g_live.insert(this).second) g_bad_ctor_over_live++;
-    if (g_res && g_res->contains(this)) g_ctor++;
+    if (in_res(this)) g_ctor++;
   }
   void alive() const { if (!g_live.count(this)) g_bad_use_of_dead++; }
   Counting() : v(0) { born(); }
@@ -47,12 +49,12 @@ struct Counting {
   void clear() { alive(); v = 0; }
   ~Counting() {
     if (!g_live.erase(this)) g_bad_dtor_of_dead++;
-    else if (g_res && g_res->contains(this)) g_dtor++;
+    else if (in_res(this)) g_dtor++;
   }
 };
 static long live_in_resource() {
   long n = 0;
-  for (auto p : g_live) if (g_res && g_res->contains(p)) n++;
+  for (auto p : g_live) if (in_res(p)) n++;
   return n;
 }
 
@@ -244,60 +246,120 @@ static size_t demand(size_t sz, const std::vector<std::string>& f) {
   return 0;
 }
 
+// V / A cases.  a and b are heap objects that can be replaced by newly constructed ones; two resources.
+// Whole-object tokens (?? = ab: a is the destination / new object and b the source; ba: the other way round):
+//   swap            member swap / ADL swap (alternating)        swapstd  std::swap = plain move ctor + 2 move assignments
+//   cp??            dst = src                                    mv??     dst = std::move(src); src.clear()   (same resource)
+//   mv??d           dst = std::move(src); src.clear()            (different resources: element-wise)
+//   cc??            dst replaced by  V(src)                      cx??<r>  dst replaced by  V(src, allocator of resource r)
+//   mc??            dst replaced by  V(std::move(src))           : src must be left EMPTY AND USABLE (no clear)
+//   mx??<r>s        dst replaced by  V(std::move(src), alloc r), r = src's resource: src left empty (no clear)
+//   mx??<r>d        same, r != src's resource: element-wise; src.clear()
+// Both objects are operated on afterwards and compared with std::vector after every token.
 template <class T>
 static void run_v(const std::string& id, const std::vector<std::string>& toks) {
   g_live.clear(); g_ctor = g_dtor = 0; g_bad_ctor_over_live = g_bad_use_of_dead = g_bad_dtor_of_dead = 0;
-  SwissMemoryResource resource;
+  SwissMemoryResource resource, resource2;
   g_res = &resource;
-  SwissAllocator<> al {resource};
+  g_res2 = &resource2;
+  SwissAllocator<> al {resource}, al2 {resource2};
+  using V = SwissVector<T>;
   std::string out = id;
-  bool std_eq = true, cap_mono = true, clear_keep = true, live_ok = true, size_le = true;
+  bool std_eq = true, cap_mono = true, clear_keep = true, live_ok = true, size_le = true, alloc_ok = true;
   int first_bad = -1;
   long ctor = 0, dtor = 0;
   {
-    SwissVector<T> a {al}, b {al};
+    V* a = new V(al);
+    V* b = new V(al);
     std::vector<int> ra, rb;
     int idx = 0;
     for (auto& t : toks) {
-      size_t capa = a.capacity(), capb = b.capacity(), csa = a.constructed_size(), csb = b.constructed_size();
-      const void* da = a.data();
-      const void* db = b.data();
-      bool exch = false;
-      if (t == "swap") { if (idx & 1) a.swap(b); else swap(a, b); ra.swap(rb); exch = true; }
-      else if (t == "cpab") { a = b; ra = rb; }
-      else if (t == "cpba") { b = a; rb = ra; }
-      else if (t == "mvab") { a = std::move(b); b.clear(); ra = std::move(rb); rb.clear(); exch = true; }
-      else if (t == "mvba") { b = std::move(a); a.clear(); rb = std::move(ra); ra.clear(); exch = true; }
-      else {
+      size_t capa = a->capacity(), capb = b->capacity(), csa = a->constructed_size(), csb = b->constructed_size();
+      const void* da = a->data();
+      const void* db = b->data();
+      bool exch = false, rebuilt = false;
+      bool whole = t.find('.') == std::string::npos;
+      if (whole && t.compare(0, 4, "swap") == 0) {
+        if (!(a->get_allocator() == b->get_allocator())) alloc_ok = false;
+        else if (t == "swapstd") std::swap(*a, *b);
+        else if (idx & 1) a->swap(*b);
+        else swap(*a, *b);
+        ra.swap(rb); exch = true;
+      } else if (whole) {
+        bool ab = t.compare(2, 2, "ab") == 0;
+        V*& dst = ab ? a : b;
+        V*& src = ab ? b : a;
+        std::vector<int>& rd = ab ? ra : rb;
+        std::vector<int>& rs = ab ? rb : ra;
+        std::string kind = t.substr(0, 2), tail = t.substr(4);
+        bool same_alloc = dst->get_allocator() == src->get_allocator();
+        if (kind == "cp") { *dst = *src; rd = rs; }
+        else if (kind == "mv") {
+          if ((tail == "d") == same_alloc) alloc_ok = false;
+          *dst = std::move(*src); src->clear();
+          rd = std::move(rs); rs.clear(); exch = same_alloc;
+        } else {
+          V* fresh = nullptr;
+          if (kind == "cc") { fresh = new V(*src); rd = rs; }
+          else if (kind == "cx") { fresh = new V(*src, tail == "1" ? al : al2); rd = rs; }
+          else if (kind == "mc") { fresh = new V(std::move(*src)); rd = std::move(rs); rs.clear(); }
+          else if (kind == "mx") {
+            SwissAllocator<> target = tail[0] == '1' ? al : al2;
+            bool same = target == src->get_allocator();
+            if ((tail[1] == 's') != same) alloc_ok = false;
+            fresh = new V(std::move(*src), target);
+            if (!same) src->clear();
+            rd = std::move(rs); rs.clear();
+          } else { fprintf(stderr, "bad token %s\n", t.c_str()); exit(2); }
+          delete dst;
+          dst = fresh;
+          rebuilt = true;
+        }
+      } else {
         auto f = split(t, '.');
         std::vector<std::string> rest(f.begin() + 1, f.end());
-        if (f[0] == "a") apply(a, ra, rest, (unsigned)idx); else apply(b, rb, rest, (unsigned)idx);
+        if (f[0] == "a") apply(*a, ra, rest, (unsigned)idx); else apply(*b, rb, rest, (unsigned)idx);
         if (rest[0] == "clr") {
-          auto& v = f[0] == "a" ? a : b;
+          auto& v = f[0] == "a" ? *a : *b;
           size_t c0 = f[0] == "a" ? capa : capb, s0 = f[0] == "a" ? csa : csb;
           const void* d0 = f[0] == "a" ? da : db;
           if (v.capacity() != c0 || v.constructed_size() != s0 || v.data() != d0 || !v.empty()) clear_keep = false;
         }
       }
       if (exch) { std::swap(capa, capb); }
-      if (a.capacity() < capa || b.capacity() < capb) cap_mono = false;
-      if (a.size() > a.constructed_size() || a.constructed_size() > a.capacity() || b.size() > b.constructed_size() ||
-          b.constructed_size() > b.capacity()) size_le = false;
-      if (!same(a, ra) || !same(b, rb)) { if (std_eq) first_bad = idx; std_eq = false; }
+      if (!rebuilt && (a->capacity() < capa || b->capacity() < capb)) cap_mono = false;
+      if (a->size() > a->constructed_size() || a->constructed_size() > a->capacity() || b->size() > b->constructed_size() ||
+          b->constructed_size() > b->capacity() || (a->capacity() > 0 && a->data() == nullptr) ||
+          (b->capacity() > 0 && b->data() == nullptr)) size_le = false;
+      if (!size_le) {   // the object is corrupt: going on would only crash; report what was seen
+        out += " A=" + std::to_string(a->size()) + "/" + std::to_string(a->constructed_size()) + "/" +
+               std::to_string(a->capacity()) + "[!] B=" + std::to_string(b->size()) + "/" +
+               std::to_string(b->constructed_size()) + "/" + std::to_string(b->capacity()) + "[!]";
+        if (first_bad < 0) first_bad = idx;
+        printf("%s ; ctor=- dtor=- | std_eq=%d cap_mono=%d clear_keep=%d size_le=0 disc=1 live_ok=1 dtor_bal=1 alloc_ok=%d "
+               "first_bad=%d\n", out.c_str(), std_eq, cap_mono, clear_keep, alloc_ok, first_bad);
+        fflush(stdout);
+        g_res = nullptr; g_res2 = nullptr;
+        return;   // a and b are leaked on purpose: their destructors would walk slots that do not exist
+      }
+      if (!same(*a, ra) || !same(*b, rb)) { if (std_eq) first_bad = idx; std_eq = false; }
       if (std::is_same<T, Counting>::value &&
-          live_in_resource() != (long)(a.constructed_size() + b.constructed_size())) live_ok = false;
-      out += " A=" + show(a) + " B=" + show(b);
+          live_in_resource() != (long)(a->constructed_size() + b->constructed_size())) live_ok = false;
+      out += " A=" + show(*a) + " B=" + show(*b);
       ++idx;
     }
     ctor = g_ctor; dtor = g_dtor;
+    delete a;
+    delete b;
   }
   bool dtor_bal = !std::is_same<T, Counting>::value || live_in_resource() == 0;
   bool disc = g_bad_ctor_over_live == 0 && g_bad_use_of_dead == 0 && g_bad_dtor_of_dead == 0;
   g_res = nullptr;
+  g_res2 = nullptr;
   if (std::is_same<T, Counting>::value) out += " ; ctor=" + std::to_string(ctor) + " dtor=" + std::to_string(dtor);
   else out += " ; ctor=- dtor=-";
-  printf("%s | std_eq=%d cap_mono=%d clear_keep=%d size_le=%d disc=%d live_ok=%d dtor_bal=%d first_bad=%d\n", out.c_str(),
-         std_eq, cap_mono, clear_keep, size_le, disc, live_ok, dtor_bal, first_bad);
+  printf("%s | std_eq=%d cap_mono=%d clear_keep=%d size_le=%d disc=%d live_ok=%d dtor_bal=%d alloc_ok=%d first_bad=%d\n",
+         out.c_str(), std_eq, cap_mono, clear_keep, size_le, disc, live_ok, dtor_bal, alloc_ok, first_bad);
 }
 
 template <class T> struct ElemCap { static size_t get(const T&) { return 0; } };
